@@ -18,7 +18,7 @@ from . import signals
 
 PID = 'C20'
 TIMEOUT = 3000.0
-RULE = ('every operation sequence of length 1..D over a 26-operation alphabet from both roots, one forked process per '
+RULE = ('every operation sequence of length 1..D over a 28-operation alphabet from both roots, one forked process per '
         'node; plus 12-member ensembles on 3 controlled workers (out-of-order completion) in 7 logger states; non-trivial = history contains a verbosity override or a raising call after the logger has been set up')
 ASSUMPTIONS = ['worker pools are replaced by the in-process serial pool (the property concerns the logging wrappers)',
                'stdout of every node is /dev/null; the file handler writes under out/tmp',
@@ -31,7 +31,9 @@ OPS = ([('set_up', None), ('set_up', 'DEBUG'), ('set_up', 'WARNING'), ('set_up_f
        [('set_level', l) for l in ALL_LEVELS] + [('disable', None), ('enable', None)] +
        [('call', v) for v in (None,) + LEVELS + ('ERROR',)] + [('call_raise', v) for v in (None,) + LEVELS + ('ERROR',)] +
        # the same variant twice within a short history (the rotating calls never repeat a variant within 3 steps)
-       [('call_sift', None), ('call_sift', 'CRITICAL')])
+       [('call_sift', None), ('call_sift', 'CRITICAL')] +
+       # the second-layer sifts take the verbosity inside their sift_args
+       [('call_second', None), ('call_second', 'DEBUG')])
 VARIANTS = ('sift', 'mask_sift', 'ensemble_sift', 'complete_ensemble_sift')
 
 
@@ -144,6 +146,16 @@ def do_call(variant, x, verbose):
         if not (np.array_equal(freqs, [0.31234567, 0.12345678]) and np.array_equal(amps, [0.71234567, 1.23456789])):
             return np.full_like(out, np.nan)    # options were modified: reported as a result difference
         return np.c_[out, np.resize(np.asarray(used, dtype=float), out.shape[0])]
+    if variant in ('second_layer', 'mask_second_layer'):
+        first = S.sift(x, max_imfs=2)
+        IA = np.abs(np.asarray(first)) + 0.1
+        args = {'max_imfs': 2}
+        if verbose != 'omit':
+            args['verbose'] = verbose
+        if variant == 'second_layer':
+            return S.sift_second_layer(IA, sift_args=args)
+        args['nphases'] = 2
+        return S.mask_sift_second_layer(IA, np.array([0.2, 0.1]), sift_args=args)
     if variant == 'complete_ensemble_sift':
         out, noise = S.complete_ensemble_sift(x, nensembles=2, max_imfs=2, nprocesses=2, **kw)
         return np.c_[out, noise]
@@ -158,7 +170,7 @@ def references(seed):
     if not _ref:
         x = the_signal(seed)
         with forkpool.installed(forkpool.SerialMP()):
-            for v in VARIANTS + ('sift-fixed100',):
+            for v in VARIANTS + ('sift-fixed100', 'second_layer', 'mask_second_layer'):
                 _ref[v] = np.asarray(do_call(v, x.copy(), 'omit')).tobytes()
     return _ref
 
@@ -196,8 +208,8 @@ def apply_op(op, pos, seed, tmpdir):
             emd.logger.disable()
         elif name == 'enable':
             emd.logger.enable()
-        elif name in ('call', 'call_sift'):
-            v = VARIANTS[(pos + _OFFSET[0]) % 4] if name == 'call' else 'sift-fixed100'
+        elif name in ('call', 'call_sift', 'call_second'):
+            v = VARIANTS[(pos + _OFFSET[0]) % 4] if name == 'call' else ('sift-fixed100' if name == 'call_sift' else ('second_layer', 'mask_second_layer')[(pos + _OFFSET[0]) % 2])
             got = np.asarray(do_call(v, x.copy(), arg)).tobytes()
             if got != references(seed)[v]:
                 viols.append(('result-depends-on-logging', '%s(verbose=%r) returned a different result' % (v, arg)))
@@ -271,6 +283,12 @@ def node(history, st, op, depth_left, seed, tmpdir):
         lvl = emd.logger.get_level()
     except Exception as e:
         lvl = 'get_level raised %r' % (e,)
+    # the console handler's own level, read without the library's accessor
+    raw = [h.level for h in logging.getLogger('emd').handlers if h.get_name() == 'console']
+    raw = raw[0] if raw else None
+    if lvl == st2['level'] and raw != st2['level']:
+        k = ('level-not-restored' if op[0].startswith('call') else 'level-model') + ':console-handler'
+        viols.append((k, 'the console handler is at level %r (get_level() says %r), expected %r' % (raw, lvl, st2['level'])))
     if lvl != st2['level']:
         k = 'level-not-restored' if op[0].startswith('call') else 'level-model'
         if op[0] == 'call_raise':
